@@ -88,15 +88,23 @@ Fixpoint thread_run (sc : scen) (fuel : nat) (s : st) (t : tid) : st :=
 Definition threads (sc : scen) : list tid :=
   TMain :: TFin :: TAnchor :: map (fun r => TRes (r_key r)) (sc_resolvers sc).
 
+(* the volatile prefix of thread t: its micro steps up to (excluding) its
+   next transaction that changes the database *)
+Fixpoint vol_run (sc : scen) (fuel : nat) (s : st) (t : tid) : st :=
+  match fuel with
+  | O => s
+  | S f =>
+    let s' := tstep sc s t in
+    if disk_matches sc (dk s') (snap_of sc (dk s)) then vol_run sc f s' t else s
+  end.
+
 Fixpoint try_threads (sc : scen) (s : st) (o : osnap) (ts : list tid) : option st :=
   match ts with
   | [] => None
   | t :: r =>
     let s' := thread_run sc 10 s t in
     if disk_matches sc (dk s') o then Some s'
-    else if disk_matches sc (dk s') (snap_of sc (dk s))
-         then try_threads sc s' o r   (* only volatile progress: keep it *)
-         else try_threads sc s o r
+    else try_threads sc (vol_run sc 10 s t) o r   (* keep its volatile progress *)
   end.
 
 (* an unchanged snapshot is a transaction without effect on the abstract
